@@ -58,6 +58,26 @@ func (w *failingWriter) Write(p []byte) (int, error) {
 	return len(p), nil
 }
 
+// richWriter is a failing writer that offers more than Write (as *os.File, *bufio.Writer or a
+// network connection do): whichever way the bytes are handed over, its error is the caller's
+type richWriter struct{ failingWriter }
+
+func (w *richWriter) WriteString(s string) (int, error) { return w.Write([]byte(s)) }
+
+func (w *richWriter) ReadFrom(r io.Reader) (int64, error) {
+	b, err := io.ReadAll(r)
+	if err != nil {
+		return 0, err
+	}
+	n, werr := w.Write(b)
+	return int64(n), werr
+}
+
+func (w *richWriter) WriteByte(c byte) error {
+	_, err := w.Write([]byte{c})
+	return err
+}
+
 // overrunWriter passes everything on but reports an error together with full progress
 // (like a quota writer that notices the overrun after the fact)
 type overrunWriter struct {
@@ -316,6 +336,14 @@ func checkC14(c any, r *Rec) error {
 				return wrap(fmt.Errorf("failing writer received %q, not a prefix of %q", fw.got, base.out))
 			}
 			r.Add("writer_faults", 1)
+			// a writer with WriteString / ReadFrom / WriteByte besides Write
+			rw := &richWriter{failingWriter{n: n}}
+			if e := tpl.ExecuteWriter(c14Ctx(cs.Variant, &tickState{}), rw); !errors.Is(e, errWriter) {
+				return wrap(fmt.Errorf("caller's writer (one that also has WriteString, ReadFrom, WriteByte) failed after %d bytes; ExecuteWriter returned %v", n, e))
+			}
+			if !strings.HasPrefix(base.out, string(rw.got)) {
+				return wrap(fmt.Errorf("failing writer received %q, not a prefix of %q", rw.got, base.out))
+			}
 			// the same position with writers that report the error together with progress
 			ow := &overrunWriter{limit: n}
 			if e := tpl.ExecuteWriter(c14Ctx(cs.Variant, &tickState{}), ow); !errors.Is(e, errWriter) {
@@ -394,7 +422,7 @@ func checkC14(c any, r *Rec) error {
 
 var _ = register(&propSpec{
 	ID:   "C14.variants",
-	Rule: "generated multi-file programs with {{ tick() }} outputs; for each program the number T of tick calls is measured and EVERY fault position k in 1..T (cap 40) is injected, plus a caller's writer failing after 0/1/mid/len-1 bytes (three failure styles; the reported error drawn from a custom error, io.EOF, io.ErrShortWrite, io.ErrUnexpectedEOF, io.ErrClosedPipe, a wrapped io.EOF, bytes.ErrTooLarge); Execute, ExecuteBytes, ExecuteWriter (io.Writer, *bytes.Buffer, *strings.Builder) and ExecuteWriterUnbuffered must agree on bytes and error text - they are handed the SAME lists, maps and structs, as a caller's context would (a third of the programs first print the context's lists in their own order) -, ExecuteWriter must have written nothing on failure, the unbuffered writer a prefix of the fault-free output, and a fault-free run after the failures must reproduce the original bytes; in a third of the cases every variant is also run with a context that must be rejected (a key that is no identifier) - all must refuse it, also for templates that are nothing but text. Non-trivial: T >= 2; distinct by program+context+options.",
+	Rule: "generated multi-file programs with {{ tick() }} outputs; for each program the number T of tick calls is measured and EVERY fault position k in 1..T (cap 40) is injected, plus a caller's writer failing after 0/1/mid/len-1 bytes (four failure styles, one of them a writer that also offers WriteString / ReadFrom / WriteByte; the reported error drawn from a custom error, io.EOF, io.ErrShortWrite, io.ErrUnexpectedEOF, io.ErrClosedPipe, a wrapped io.EOF, bytes.ErrTooLarge); Execute, ExecuteBytes, ExecuteWriter (io.Writer, *bytes.Buffer, *strings.Builder) and ExecuteWriterUnbuffered must agree on bytes and error text - they are handed the SAME lists, maps and structs, as a caller's context would (a third of the programs first print the context's lists in their own order) -, ExecuteWriter must have written nothing on failure, the unbuffered writer a prefix of the fault-free output, and a fault-free run after the failures must reproduce the original bytes; in a third of the cases every variant is also run with a context that must be rejected (a key that is no identifier) - all must refuse it, also for templates that are nothing but text. Non-trivial: T >= 2; distinct by program+context+options.",
 	Gen: func(t *rapid.T) any {
 		prog := genProgram(t, progOpts{ticks: true, includes: true, inherit: true, stateful: true, errProne: drawInt(t, 0, 4, "errprone") == 0, maxDepth: 3, maxNodes: 25})
 		if drawInt(t, 0, 9, "textonly") == 0 {
